@@ -13,7 +13,7 @@
 From Coq Require Import List ZArith Arith Sorted.
 Import ListNotations.
 From TV Require Import Lib.Obs C33.Model C33.Proofs C34.Model C34.Run
-  C34.ProofsCond C34.ProofsCond2 C34.ProofsEvent C34.ProofsEvent2 C34.ProofsEvent3 C34.ProofsEvent6.
+  C34.ProofsCond C34.ProofsCond2 C34.ProofsEvent C34.ProofsEvent2 C34.ProofsEvent3 C34.ProofsEvent6 C34.ProofsP4.
 Local Open Scope Z_scope.
 
 (* ===== Condition ===== *)
@@ -186,6 +186,34 @@ Theorem C34_event_any_timeout_including_zero_is_a_deadline :
     /\ exists x', nth_error (e_waits (fst (estep s1 (EFire w)))) w = Some x' /\ returned x' = RTimeout.
 Proof. exact event_any_timeout_is_a_deadline. Qed.
 Print Assumptions C34_event_any_timeout_including_zero_is_a_deadline.
+
+(* _TimeoutGarbageCollector._garbage_collect (threshold 100), for ANY deque and future table:
+   futures untouched; the live (pending) waiters are kept, in their original relative order;
+   the deque is rebuilt exactly when the counter passes 100 (it then becomes the ordered list
+   of live waiters and the counter restarts), otherwise it is unchanged; only resolved entries
+   are ever dropped *)
+Theorem C34_garbage_collection_preserves_live_order :
+  forall s,
+    s_futs (garbage_collect s) = s_futs s
+    /\ live_ids (s_futs (garbage_collect s)) (s_waiters (garbage_collect s)) = live_ids (s_futs s) (s_waiters s)
+    /\ live (s_futs (garbage_collect s)) (s_waiters (garbage_collect s)) = live (s_futs s) (s_waiters s)
+    /\ (if (100 <? S (s_timeouts s))%nat
+        then s_waiters (garbage_collect s) = live_ids (s_futs s) (s_waiters s) /\ s_timeouts (garbage_collect s) = 0%nat
+        else s_waiters (garbage_collect s) = s_waiters s /\ s_timeouts (garbage_collect s) = S (s_timeouts s))
+    /\ (forall w, In w (s_waiters s) -> ~ In w (s_waiters (garbage_collect s)) -> pending (s_futs s) w = false).
+Proof. exact gc_preserves_live_order. Qed.
+Print Assumptions C34_garbage_collection_preserves_live_order.
+
+(* ... and along the operation that triggers it: after a timer fires in a reachable state - with
+   or without a collection - the live waiters are the previous ones in the same order, minus
+   the waiter that just timed out *)
+Theorem C34_timer_expiry_preserves_live_order :
+  forall s w, creachable s ->
+    live_ids (s_futs (fst (cstep s (CFire w)))) (s_waiters (fst (cstep s (CFire w))))
+    = filter (fun x => negb (Nat.eqb x w && (pending (s_futs s) w && armed (s_futs s) w)))
+             (live_ids (s_futs s) (s_waiters s)).
+Proof. intros s w R. apply fire_preserves_live_order. apply creachable_wf; auto. Qed.
+Print Assumptions C34_timer_expiry_preserves_live_order.
 
 (* the observable of the model passes the property checker that is applied to the
    implementation's observable, for every Condition and every Event schedule *)
